@@ -290,7 +290,7 @@ def check_history(case, meta, h, d, stats, hist):
             pre_x = b["cs"]
         else:
             if not bits_equal(b["w"], cw):
-                probs.append(("prop", "weights-changed-without-resampling", "%s: weights changed after the resampling decision although resampling did not run" % where))
+                probs.append(("prop", "neff-not-of-corrected-weights", "%s: resampling did not run, yet the weights whose effective sample size was evaluated are not the corrected weights" % where))
                 break
             pre_x = b["x"]
         # the predicted set as the (harness-defined) prediction produces it from the previous corrected set
